@@ -11,6 +11,10 @@ ENV = dict(os.environ, GOFLAGS="-mod=mod", GOPROXY="off", GOSUMDB="off", GOTOOLC
 
 # (property, name, file, old, new[, count])  -- old must occur in file; replaced once unless count given
 MUTANTS = json.load(open(os.path.join(ROOT, "tools", "mutants.json")))
+# every repaired defect is also a self-test: revert the "fix:" commit (in a scratch worktree, applied
+# through the overlay) and the check that found it must report it again
+for fx in json.load(open(os.path.join(ROOT, "known_findings.json")))["fixed"]:
+    MUTANTS.append({"prop": fx["property"], "name": "revert %s: %s" % (fx["commit"], fx["what"][:70]), "revert": fx["commit"]})
 
 
 def sh(cmd, cwd=None, env=None, timeout=3600):
@@ -34,7 +38,21 @@ def main():
         tmp = tempfile.mkdtemp(prefix="verif-selftest-", dir="/dev/shm")
         try:
             replace = {}
-            for ed in m["edits"]:
+            if "revert" in m:
+                wt = "/tmp/verif-regress-%d" % os.getpid()
+                sh("git -C /repo worktree remove --force %s; rm -rf %s" % (wt, wt))
+                rc, out = sh("git -C /repo worktree add --detach %s HEAD -q && git -C %s revert --no-commit %s" % (wt, wt, m["revert"]))
+                if rc != 0:
+                    sh("git -C /repo worktree remove --force %s; rm -rf %s" % (wt, wt))
+                    results.append((m["prop"], m["name"], "SKIPPED revert does not apply on its own (a later fix rewrote the same lines)"))
+                    raise StopIteration
+                rc, out = sh("git -C %s diff --name-only HEAD" % wt)
+                for f in out.split():
+                    dst = os.path.join(tmp, f.replace("/", "_"))
+                    shutil.copy(os.path.join(wt, f), dst)
+                    replace[os.path.join("/repo", f)] = dst
+                sh("git -C /repo worktree remove --force %s; rm -rf %s" % (wt, wt))
+            for ed in m.get("edits", []):
                 src = os.path.join("/repo", ed["file"])
                 text = open(src).read()
                 if ed["old"] not in text:
@@ -57,12 +75,19 @@ def main():
             if mode_overlay:
                 ovdir = os.path.join(tmp, "ov")
                 os.makedirs(ovdir)
-                rc, out = sh("go run ./tools/mkoverlay -repo /repo -out %s -base %s" % (ovdir, ov), cwd=os.path.join(ROOT, "harness"))
+                rc, bb = sh("go list -m -f '{{.Dir}}' go.etcd.io/bbolt", cwd=os.path.join(ROOT, "harness"))
+                rc, out = sh("go run ./tools/mkoverlay -repo /repo -out %s -base %s -bbolt %s" % (ovdir, ov, bb.strip().splitlines()[-1]), cwd=os.path.join(ROOT, "harness"))
                 if rc != 0:
                     results.append((m["prop"], m["name"], "MKOVERLAY-FAILED " + out[-300:]))
                     raise StopIteration
                 ov = os.path.join(ovdir, "overlay.json")
-            rc, out = sh("go build -overlay %s -o %s ./cmd/vcheck" % (ov, binp), cwd=os.path.join(ROOT, "harness"))
+            rc, out = sh("GODEBUG=goindex=0 go build -overlay %s -o %s ./cmd/vcheck" % (ov, binp), cwd=os.path.join(ROOT, "harness"))
+            racebin = None
+            if rc == 0 and m["prop"] == "C18":
+                # the race pass must see the edit too: plain build + the edit's own overlay
+                racebin = os.path.join(tmp, "vcheck-race")
+                base_ov = os.path.join(tmp, "overlay.json")
+                rc, out = sh("go build -race -overlay %s -o %s ./cmd/vcheck" % (base_ov, racebin), cwd=os.path.join(ROOT, "harness"))
             if rc != 0:
                 results.append((m["prop"], m["name"], "BUILD-FAILED " + out[-400:]))
                 raise StopIteration
@@ -70,6 +95,8 @@ def main():
             os.makedirs(vroot)
             shutil.copy(os.path.join(ROOT, "known_findings.json"), vroot)
             env = dict(ENV, VERIF_ROOT=vroot)
+            if racebin:
+                env["VERIF_RACE_BIN"] = racebin
             t0 = time.time()
             rc, out = sh("%s -prop %s -tier %s" % (binp, m["prop"], a.tier), cwd=ROOT, env=env)
             caught = rc == 1 and "VIOLATION property=%s" % m["prop"] in out
@@ -80,7 +107,10 @@ def main():
         finally:
             shutil.rmtree(tmp, ignore_errors=True)
         print(*results[-1], flush=True)
-    missed = [r for r in results if not r[2].startswith("CAUGHT")]
+    missed = [r for r in results if not (r[2].startswith("CAUGHT") or r[2].startswith("SKIPPED"))]
+    if not (a.prop or a.filter):
+        os.makedirs(os.path.join(ROOT, "selftest"), exist_ok=True)
+        json.dump([{"property": r[0], "edit": r[1], "result": r[2]} for r in results], open(os.path.join(ROOT, "selftest", "results.json"), "w"), indent=1)
     print("selftest: %d mutants, %d caught, %d not" % (len(results), len(results) - len(missed), len(missed)))
     return 1 if missed else 0
 
